@@ -343,3 +343,49 @@ mut("c18-keep-label-count-neq", "C18", "KEEP", "ext/dynblock/expand_spec.go",
     "\t\t} else if len(labelExprs) < len(blockS.LabelNames) {", "\t\t} else if len(labelExprs) != len(blockS.LabelNames) {", "")
 mut("c19-userfunc-param-unmarked", "C19", "MUST", "ext/userfunc/decode.go",
     "\t\t\t\tAllowMarked: true,\n\t\t\t})", "\t\t\t})", "userfunc.marks")
+
+# ---- C03 sibling agreement of the native and JSON bodies --------------------------------------------
+mut("c03-json-required-dropped", "C03", "MUST", "json/structure.go",
+    "\t\tif !attrS.Required {\n\t\t\tcontinue\n\t\t}\n\t\tif _, defined := content.Attributes[attrS.Name]; !defined {",
+    "\t\tif _, defined := content.Attributes[attrS.Name]; !defined && false {", "required.reported")
+mut("c03-json-required-inverted", "C03", "MUST", "json/structure.go",
+    "\t\tif !attrS.Required {\n\t\t\tcontinue\n\t\t}", "\t\tif attrS.Required {\n\t\t\tcontinue\n\t\t}", "required.reported")
+mut("c03-native-required-dropped", "C03", "MUST", "hclsyntax/structure.go",
+    "\t\t\tif attrS.Required {\n\t\t\t\tdiags = append(diags, &hcl.Diagnostic{\n\t\t\t\t\tSeverity: hcl.DiagError,", "\t\t\tif attrS.Required {\n\t\t\t\tdiags = append(diags, &hcl.Diagnostic{\n\t\t\t\t\tSeverity: hcl.DiagWarning,", "required.reported")
+mut("c03-json-dup-overwrites", "C03", "MUST", "json/structure.go",
+    "\t\t\t\t\tContext:  jsonAttr.Range().Ptr(),\n\t\t\t\t})\n\t\t\t\tcontinue\n", "\t\t\t\t\tContext:  jsonAttr.Range().Ptr(),\n\t\t\t\t})\n", "dup.reported")
+mut("c03-json-dup-silent", "C03", "MUST", "json/structure.go",
+    "if existing, exists := attrs[name]; exists {\n\t\t\tdiags = append(diags, &hcl.Diagnostic{\n\t\t\t\tSeverity: hcl.DiagError,",
+    "if existing, exists := attrs[name]; exists {\n\t\t\tdiags = append(diags, &hcl.Diagnostic{\n\t\t\t\tSeverity: hcl.DiagWarning,", "dup.reported")
+mut("c03-native-too-few-labels", "C03", "MUST", "hclsyntax/structure.go",
+    "if len(block.Labels) < len(blockS.LabelNames) {", "if len(block.Labels) == 0 && len(blockS.LabelNames) > 0 {", "labels.exact")
+mut("c03-json-labels-skip-two", "C03", "MUST", "json/structure.go",
+    "typeName, typeRange, labelsLeft[1:], labelsUsed, labelRanges, blocks)", "typeName, typeRange, labelsLeft[len(labelsLeft):], labelsUsed, labelRanges, blocks)", "labels.exact")
+mut("c03-json-comment-extraneous", "C03", "MUST", "json/structure.go",
+    "\t\tk := attr.Name\n\t\tif k == \"//\" {", "\t\tk := attr.Name\n\t\tif k == \"#\" {", "comment.skipped")
+mut("c03-json-comment-attribute", "C03", "MUST", "json/structure.go",
+    "\t\tname := jsonAttr.Name\n\t\tif name == \"//\" {", "\t\tname := jsonAttr.Name\n\t\tif name == \"//\" && len(obj.Attrs) > 1 {", "comment.skipped")
+mut("c03-keep-required-positive", "C03", "KEEP", "json/structure.go",
+    "\t\tif !attrS.Required {\n\t\t\tcontinue\n\t\t}\n\t\tif _, defined := content.Attributes[attrS.Name]; !defined {",
+    "\t\tif _, defined := content.Attributes[attrS.Name]; attrS.Required && !defined {", "")
+mut("c03-keep-labels-neq", "C03", "KEEP", "json/structure.go",
+    "\tif len(labelsLeft) > 0 {\n\t\tlabelName := labelsLeft[0]", "\tif len(labelsLeft) != 0 {\n\t\tlabelName := labelsLeft[0]", "")
+mut("rename-unpackBlock", "C03", "RENAME", "json", "unpackBlock", "unpackBlocks")
+
+# ---- C16 gohcl: tables, kinds, panics and indexing of the decoder -----------------------------------
+mut("c16-panic-on-missing-attr", "C16", "MUST", "gohcl/decode.go",
+    "\t\tif attr == nil {\n\t\t\tif !exprType.AssignableTo(field.Type) {\n\t\t\t\tcontinue\n\t\t\t}",
+    "\t\tif attr == nil {\n\t\t\tif field.Type.Kind() == reflect.Chan {\n\t\t\t\tpanic(\"missing attribute for channel field\")\n\t\t\t}\n\t\t\tif !exprType.AssignableTo(field.Type) {\n\t\t\t\tcontinue\n\t\t\t}", "decode.panics")
+mut("c16-dup-block-unguarded", "C16", "MUST", "gohcl/decode.go",
+    "if len(blocks) > 1 && !isSlice {", "if len(blocks) != 1 && !isSlice {", "decode.index")
+mut("c16-encoder-ignores-labels", "C16", "MUST", "gohcl/encode.go",
+    "\tlabels := make([]string, len(tags.Labels))\n\tfor i, lf := range tags.Labels {\n\t\tlv := rv.Field(lf.FieldIndex)\n\t\t// We just stringify whatever we find. It should always be a string\n\t\t// but if not then we'll still do something reasonable.\n\t\tlabels[i] = fmt.Sprintf(\"%s\", lv.Interface())\n\t}",
+    "\tvar labels []string", "tags.agree")
+mut("c16-encoder-no-slices", "C16", "MUST", "gohcl/encode.go",
+    "if elemTy.Kind() == reflect.Slice || elemTy.Kind() == reflect.Array {", "if elemTy.Kind() == reflect.Array {", "kinds.agree")
+mut("c16-keep-kind-switch", "C16", "KEEP", "gohcl/encode.go",
+    "if elemTy.Kind() == reflect.Slice || elemTy.Kind() == reflect.Array {\n\t\t\t\tisSeq = true\n\t\t\t\telemTy = elemTy.Elem()\n\t\t\t}",
+    "switch elemTy.Kind() {\n\t\t\tcase reflect.Slice, reflect.Array:\n\t\t\t\tisSeq = true\n\t\t\t\telemTy = elemTy.Elem()\n\t\t\t}", "")
+mut("c16-keep-len-zero-first", "C16", "KEEP", "gohcl/decode.go",
+    "if len(blocks) > 1 && !isSlice {", "if !isSlice && len(blocks) >= 2 {", "")
+mut("rename-decodeBodyToStruct", "C16", "RENAME", "gohcl", "decodeBodyToStruct", "decodeBodyIntoStruct")
